@@ -19,7 +19,7 @@ PROP = {
         # (b) range checks
         "Mps.C10.range_check_iff", "Mps.C10.honest_response_bound", "Mps.C10.honest_response_bound_LEps",
         "Mps.C10.honest_response_bound_LPrimeEps", "Mps.C10.honest_response_triangle", "Mps.C10.out_of_range_rejected",
-        "Mps.C10.unchecked_response_panics",
+        "Mps.C10.unchecked_response_panics", "Mps.C10.plaintext_reduced",
         # (c) binding of the challenge input
         "Mps.C10.challenge_input_injective", "Mps.C10.challenge_binds_statement", "Mps.C10.selected_fields_equal",
         "Mps.C10.hv_encode_injective", "Mps.C10.toHV_injective",
